@@ -6,16 +6,19 @@ PLAN = dict(
     steps=[
         step("print-contexts-x86", "codegen-x86", "codegen-x86", 48, 600, shards_thorough=4, args=["printctx"]),
         step("programs-x86", "codegen-x86", "codegen-x86", 80, 3000, shards_thorough=12, viol=CC),
+        step("print-contexts-a64", "codegen-a64", "codegen-a64", 48, 600, shards_thorough=4, args=["printctx"]),
     ],
     rule="(i) directly built linear AxCut programs with k = 0..23 live variables of mixed kinds (integers / boxed objects, 0..5 of them entry "
          "arguments), one integer printed (print_i64 or println_i64), then EVERY variable consumed into the exit value: a value lost across "
          "the call changes the result; (ii) random Fun programs through the real pipeline. The REAL x86-64 code runs on the ISA model whose "
          "external-call model checks rsp = 0 mod 16, then destroys all caller-saved registers, flags and the stack below rsp; at the final "
-         "ret rsp and rbx rbp r12-r15 must have their entry values. 4 argument tuples each. Non-trivial: every case",
+         "ret rsp and rbx rbp r12-r15 must have their entry values. 4 argument tuples each. Non-trivial: every case. (iii) family (i) through the REAL "
+         "AArch64 generator on Sem/A64Sem.v (BL destroys X0-X17 and the link register X30, SP alignment checked at every sp-relative access, X19-X29 and "
+         "SP checked at the final RET): k = 13 is the context in which a variable lives in X29/X30",
     explanation="theorems: stack alignment at the call for every context, save/restore balance and mirroring, prologue/epilogue balance and "
                 "callee-saved set (arithmetic over the model of code.rs / into_routine.rs); survival of values across the call and the final register "
                 "file are checked by execution on the ISA model",
     assumptions=["Sem/X86Sem.v external-call model = System V AMD64 ABI (callee may clobber rax rcx rdx rsi rdi r8-r11, flags, red zone and below)",
-                 "AArch64 part of C13 pending the AArch64 model"],
-    trusted=["coq/Sem/X86Sem.v", "coq/Sem/AxSem.v"],
+                 "Sem/A64Sem.v external-call model = AAPCS64 (callee may clobber X0-X17, X30, NZCV); the AArch64 part of C13 is decided by execution of the real output, not by theorem"],
+    trusted=["coq/Sem/X86Sem.v", "coq/Sem/A64Sem.v", "coq/Sem/AxSem.v"],
 )
